@@ -12,6 +12,10 @@ compositions `T::sample`, `Beta::sample` as functions of the draws of their sub-
 * `T_sample_eq` / `Beta_sample_eq`: whenever the sub-samplers return (`some`), the model's value is the generated formula applied to
   those draws, and its generator state is the state after them, in the source's order (normal then gamma; alpha-gamma then
   beta-gamma then, only in the underflow branch, one uniform).
+* redraw loops (F53 / F54): `Exponential_sampleLoop_eq`, `Gumbel_sampleLoop_eq`, `Pareto_sampleLoop_eq` tie the WHOLE sampler bodies
+  (`let mut u = D; while u == 0. { u = D; } formula(u)`, over the generator the model uses) to the models' `X.sample fuel ..`, including the
+  redraw condition `== 0.` (`redrawWhile_eq_redrawNonzero`); `Gamma_prepareLoop_eq` does the same for the boost block of
+  `Gamma::sample` against `Gamma.prepare`.  The loops are fuel-bounded on both sides (`none` = `fuel` zero draws in a row).
 No algebra on the scalar is used.
 -/
 set_option linter.unusedSectionVars false
@@ -61,5 +65,53 @@ theorem Beta_sample_eq (fuel : Nat) (alpha beta x y : α) (g g1 g2 : Rng)
   unfold Beta.sample Beta_sample
   simp only [hx, hy]
   split <;> rfl
+
+/-! ### redraw loops (F53, F54): `let mut u = D; while u == 0. { u = D; } tail(u)` -/
+
+/-- The translator's spelling of the redraw loop with the source's condition `u == 0.` is the model's `redrawNonzero`. -/
+theorem redrawWhile_eq_redrawNonzero (draw : Rng → α × Rng) (fuel : Nat) (g : Rng) :
+    Cv.SrcDraw.redrawWhile (fun (u : α) => decide ((u == 0) = true)) draw fuel g = redrawNonzero draw fuel g := by
+  have hc : (fun (u : α) => decide ((u == 0) = true)) = fun u => u == 0 := by
+    funext u
+    exact Bool.decide_eq_true
+  rw [hc]
+  induction fuel generalizing g with
+  | zero => rfl
+  | succ n ih =>
+    show (if ((draw g).1 == 0) = true then Cv.SrcDraw.redrawWhile (fun u => u == 0) draw n (draw g).2 else some (draw g)) =
+      (if ((draw g).1 == 0) = true then redrawNonzero draw n (draw g).2 else some (draw g))
+    rw [ih]
+
+/-- `Exponential::sample` as a whole: the redraw loop on the cached `Uniform(0, 1)` sub-sampler, then `-u.ln() / self.lambda`. -/
+theorem Exponential_sampleLoop_eq (fuel : Nat) (lambda : α) (g : Rng) :
+    Exponential_sampleLoop (UniformF.sample (0 : α) 1) fuel lambda g = Exponential.sample fuel lambda g := by
+  unfold Exponential_sampleLoop Exponential.sample
+  rw [redrawWhile_eq_redrawNonzero]
+  rfl
+
+/-- `Gumbel::sample` as a whole. -/
+theorem Gumbel_sampleLoop_eq (fuel : Nat) (mu beta : α) (g : Rng) :
+    Gumbel_sampleLoop (UniformF.sample (0 : α) 1) fuel mu beta g = Gumbel.sample fuel mu beta g := by
+  unfold Gumbel_sampleLoop Gumbel.sample
+  rw [redrawWhile_eq_redrawNonzero]
+  rfl
+
+/-- `Pareto::sample` as a whole: the redraw loop on `alea::f64()`. -/
+theorem Pareto_sampleLoop_eq (fuel : Nat) (alpha minval : α) (g : Rng) :
+    Pareto_sampleLoop (fun g => g.f64 (α := α)) fuel alpha minval g = Pareto.sample fuel alpha minval g := by
+  unfold Pareto_sampleLoop Pareto.sample
+  rw [redrawWhile_eq_redrawNonzero]
+  rfl
+
+/-- The `then` block of `Gamma::sample`'s boost (shape below 1): the redraw loop, then `(alpha + 1., u.powf(1. / alpha))`. -/
+theorem Gamma_prepareLoop_eq (fuel : Nat) (alpha : α) (g : Rng) (h : alpha < 1) :
+    Gamma.prepare fuel alpha g =
+      (Gamma_prepareLoop (UniformF.sample (0 : α) 1) fuel alpha g).map fun q => (q.1.1, q.1.2, q.2) := by
+  unfold Gamma.prepare Gamma_prepareLoop
+  rw [if_pos h, redrawWhile_eq_redrawNonzero]
+  cases redrawNonzero (UniformF.sample (0 : α) 1) fuel g <;> rfl
+
+/-- the value after that loop, as a function of the final draw -/
+theorem Gamma_boost_eq (alpha u : α) : Gamma_boost u alpha = (alpha + 1, Transc.pow u (1 / alpha)) := rfl
 
 end Cv.SrcTie.C03Mut
